@@ -398,6 +398,90 @@ def char_units(ctx, rng, n):
                                                                         "workload": "char-units"})
 
 
+def single_and_enum_forms(ctx, rng, n):
+    """(a) A structure whose only member is a bit-field, for every storage type: every input kind gives the same,
+    in-range value, the default-constructed structure equals the parse of zero bytes and dumps as zeros.
+    (b) An enum or flag as the storage type of a bit-field behaves like its underlying type wherever the structure is
+    read or written (aligned and packed, any stream position): same values, same bytes, same positions."""
+    import io
+
+    sizes = {"uint8": 1, "int8": 1, "char": 1, "uint16": 2, "int16": 2, "uint32": 4, "uint64": 8, "E8": 1, "F16": 2}
+    pre = "enum E8 : uint8 { A = 1, B = 2 };\nflag F16 : uint16 { X = 1, Y = 2 };\n"
+    for st, size in sizes.items():
+        for endian in "<>":
+            bits = rng.randint(1, size * 8)
+            text = pre + f"struct T {{ {st} a : {bits}; }};"
+            raw = bytes(rng.choice([0xFF, 0xA5, 0x80, 0x01, rng.randrange(256)]) for _ in range(size))
+            unit = int.from_bytes(raw, "little" if endian == "<" else "big")
+            want = unit & ((1 << bits) - 1) if endian == "<" else unit >> (size * 8 - bits)
+            for compiled in (True, False):
+                ctx.evaluation(("single-bit-field", st, bits, endian, compiled, raw.hex()))
+                ctx.cell("single-bit-field-structures")
+                det = {"text": text, "endian": endian, "compiled": compiled, "data": raw.hex(), "workload": "single-forms"}
+                try:
+                    cs = lib.load(text, endian, False, compiled)
+                    got = [int(cs.T(raw).a), int(cs.T(bytearray(raw)).a), int(cs.T(memoryview(raw)).a),
+                           int(cs.T(io.BytesIO(raw)).a), int(cs.T.reads(raw).a), int(cs.T.read(io.BytesIO(raw)).a)]
+                    zero = cs.T(io.BytesIO(bytes(size)))
+                    dflt = cs.T()
+                    facts = (got, dflt == zero, dflt.dumps(), bool(dflt), len(cs.T))
+                    exp = ([want] * 6, True, bytes(size), False, size)
+                except Exception as e:  # noqa: BLE001
+                    ctx.violation("single-forms", f"single-bit-field-structure-raises:{type(e).__name__}",
+                                  dict(det, error=lib.exc_sig(e)))
+                    continue
+                if facts != exp:
+                    ctx.violation("single-forms", "single-bit-field-structure-differs-by-input-kind-or-default",
+                                  dict(det, got=repr(facts), want=repr(exp)))
+                else:
+                    ctx.event("single_bit_field_structures_checked")
+    bases = {"E8": "uint8", "F16": "uint16"}
+    for it in range(n):
+        en = rng.choice(list(bases))
+        base = bases[en]
+        total = sizes[base] * 8
+        fields, rem = [], 0
+        for j in range(rng.randint(2, 6)):
+            if rem == 0:
+                rem = total
+            b = rng.randint(1, rem)
+            fields.append((f"f{j}", rng.random() < 0.5, b))
+            rem -= b
+        lead = rng.choice(["", "uint8 n; char s[n]; ", "uint32 h; "])
+        tail = rng.choice(["uint16 t;", "uint8 t;", "uint32 t;"])
+
+        def render(use_enum):
+            return pre + "struct T { " + lead + " ".join(f"{en if (e and use_enum) else base} {nm} : {b};"
+                                                         for nm, e, b in fields) + " " + tail + " };"
+        data = bytes([2]) + bytes(rng.randrange(256) for _ in range(40))
+        for align in (True, False):
+            for endian in "<>":
+                p, q = rng.choice([0, 1, 3, 5, 16]), rng.choice([0, 1, 2, 7])
+                res = []
+                for use_enum in (True, False):
+                    for compiled in (True, False):
+                        ctx.evaluation(("enum-vs-base", render(True), align, endian, compiled, use_enum, p, q))
+                        ctx.cell("enum-vs-base-bit-fields")
+                        try:
+                            cs = lib.load(render(use_enum), endian, align, compiled)
+                            fh = io.BytesIO(bytes(p) + data)
+                            fh.seek(p)
+                            o = cs.T(fh)
+                            out = io.BytesIO()
+                            out.write(b"\xee" * q)
+                            nw = o.write(out)
+                            res.append(([int(getattr(o, nm)) for nm, _e, _b in fields] + [int(o.t)], fh.tell() - p,
+                                        out.getvalue()[q:].hex(), nw == len(out.getvalue()) - q))
+                        except Exception as e:  # noqa: BLE001
+                            res.append(lib.exc_sig(e))
+                if any(r != res[0] for r in res[1:]) or (isinstance(res[0], tuple) and not res[0][3]):
+                    ctx.violation("enum-forms", "enum-bit-fields-differ-from-their-underlying-type",
+                                  {"text": render(True), "align": align, "endian": endian, "read_at": p, "written_at": q,
+                                   "data": data.hex(), "results(enum c/i, base c/i)": repr(res), "workload": "single-forms"})
+                else:
+                    ctx.event("enum_vs_base_checked")
+
+
 def union_bits(ctx, rng):
     """Bit-field members of a union: whatever unit rule applies there, a parsed value lies in [0, 2^bits)."""
     for st, size in (("uint8", 1), ("uint16", 2), ("uint32", 4)):
@@ -430,6 +514,8 @@ def run(ctx):
         char_units(ctx, ctx.rng("char-units"), 10 if not ctx.thorough else 200)
         if ctx.shard == 0:
             union_bits(ctx, ctx.rng("union-bits"))
+        if ctx.shard % 4 == 2:
+            single_and_enum_forms(ctx, ctx.rng("single-forms"), 6 if not ctx.thorough else 120)
         for i in range(N_CASES[ctx.tier]):
             if ctx.out_of_time():
                 break
@@ -450,6 +536,11 @@ def replay(ctx, detail):
     if detail.get("workload") == "union-bits":
         import random
         union_bits(ctx, random.Random(0))
+        return
+    if detail.get("workload") == "single-forms":
+        print(detail)
+        import random
+        single_and_enum_forms(ctx, random.Random(0), 120)
         return
     if detail.get("workload") == "char-units":
         print(detail)
